@@ -27,7 +27,10 @@ FLAVOURS = {"asan": tables.Flavour("asan", flags=FLAGS),
             "clangO2": tables.Flavour("clangO2", cxx="clang++", flags=["-O2"] + FLAGS),
             "O3native": tables.Flavour("O3native", flags=["-O3", "-march=native"], asan=False),
             "O0": tables.Flavour("O0", flags=["-O0"] + FLAGS)}
-SEEDS = [0, 1, 0xc70f6907, 0xFFFFFFFF, 0x100000000, 0x8000000000000000, 0xFFFFFFFFFFFFFFFF]
+SEEDS = [0, 1, 0xc70f6907, 0xFFFFFFFF, 0x100000000, 0x8000000000000000, 0xFFFFFFFFFFFFFFFF,
+         0x80000000, 0x8000000080000000, 0x7FFFFFFF7FFFFFFF]      # round 3: the high bit of each half alone / both / neither
+STRAT = [0x00, 0x01, 0x7F, 0x80, 0xFF]
+NALIGN = 16            # every alignment 0..15 (round 3; 0..7 before)
 
 
 def slimbs(v):
@@ -36,7 +39,7 @@ def slimbs(v):
 
 def all_placements(fills=(0x00, 0xFF)):
     """frame and exact heap block at every alignment x fill; flush against a PROT_NONE page behind / before the key"""
-    return [[kind, a, f] for kind in (0, 1) for a in range(8) for f in fills] + [[2, 0, fills[0]], [2, 0, fills[1]], [3, 0, fills[1]]]
+    return [[kind, a, f] for kind in (0, 1) for a in range(NALIGN) for f in fills] + [[2, 0, fills[0]], [2, 0, fills[1]], [3, 0, fills[1]]]
 
 
 def content(rnd, n, variant):
@@ -91,7 +94,7 @@ def scripts(ctx):
     while gi < len(grid):
         chunk = grid[gi:gi + per_window - per_window // 6]
         gi += len(chunk)
-        rep = [[c[0], c[1], [[rnd.randrange(2), rnd.randrange(8), rnd.choice([0x5A, 0xA5, 0x01])] for _ in range(3)]]
+        rep = [[c[0], c[1], [[rnd.randrange(2), rnd.randrange(NALIGN), rnd.choice([0x5A, 0xA5, 0x01])] for _ in range(3)]]
                for c in rnd.sample(chunk, min(len(chunk), per_window // 6))]
         cases += chunk + rep
     out["grid"] = pack(cases)
@@ -102,8 +105,8 @@ def scripts(ctx):
         t = rnd.random()
         n = rnd.randrange(0, 41) if t < 0.3 else rnd.randrange(41, 301)
         rk.append([content(rnd, n, rnd.choice([0, 0, 0, 2, 4])), slimbs(rnd.choice(SEEDS) if rnd.random() < 0.3 else rnd.getrandbits(64)),
-                   [[rnd.randrange(2), rnd.randrange(8), rnd.choice([0, 0xFF])], [1, rnd.randrange(8), rnd.choice([0, 0xFF])],
-                    [0, rnd.randrange(8), rnd.choice([0x5A, 0xA5])], [2, 0, rnd.choice([0, 0xFF])]]])
+                   [[rnd.randrange(2), rnd.randrange(NALIGN), rnd.choice([0, 0xFF])], [1, rnd.randrange(NALIGN), rnd.choice([0, 0xFF])],
+                    [0, rnd.randrange(NALIGN), rnd.choice([0x5A, 0xA5])], [2, 0, rnd.choice([0, 0xFF])]]])
     out["random"] = pack(rk)
     # (c) the SMHasher key family {0,1,..,n-1} with seed 256-n, at the worst alignments
     sm = [[list(range(n)), slimbs(256 - n), [[1, 1, 0xFF], [1, 7, 0], [0, 3, 0xFF], [1, 0, 0], [2, 0, 0xFF], [3, 0, 0]]] for n in range(0, 256, 1 if not q else 5)]
@@ -127,6 +130,40 @@ def scripts(ctx):
     out["reused"] = pack(ru, per=4)
     # (f) one key longer than 65 536 bytes (a length that does not fit 16 bits), default build only (TLC needs ~10 s for it)
     out["huge"] = pack([[content(rnd, 65536 + rnd.randrange(1, 3000), 0), slimbs(rnd.getrandbits(64)), [[1, rnd.randrange(8), 0xFF]]]])
+    # (g) round 3, exhaustive: EVERY key of length <= 2 over all 256 byte values (65 793 keys), with a seed that has the high
+    #     bit of each half set (thorough: also seed 0 and a seeded random seed); exact-size block at a rotating alignment,
+    #     flush behind a PROT_NONE page and flush before one
+    ex2_seeds = [0x8000000080000001] + ([] if q else [0, rnd.getrandbits(64)])
+    ex2 = []
+    for sd in ex2_seeds:
+        for k in [[]] + [[a] for a in range(256)] + [[a, b] for a in range(256) for b in range(256)]:
+            ex2.append([k, slimbs(sd), [[1, (sum(k) + len(k)) % NALIGN, 0xFF], [3, 0, 0x00], [2, 0, 0xFF]]])
+    out["exh2"] = pack(ex2, per=64)
+    # (h) round 3, stratified: every key over the bytes {00, 01, 7F, 80, FF} up to length 4 (thorough: 6), and for the lengths up
+    #     to 9 every position set to each of these bytes in a random key and in an all-FF key
+    st = []
+    nfull = 4 if q else 6
+    frontier = [[]]
+    allk = [[]]
+    for _ in range(nfull):
+        frontier = [k + [b] for k in frontier for b in STRAT]
+        allk += frontier
+    for k in allk:
+        st.append(k)
+    for n in range(nfull + 1, 10):
+        for base in ([rnd.randrange(256) for _ in range(n)], [0xFF] * n, [rnd.choice(STRAT) for _ in range(n)]):
+            for pos in range(n):
+                for b in STRAT:
+                    st.append(base[:pos] + [b] + base[pos + 1:])
+    out["strat"] = pack([[k, slimbs(SEEDS[(i + len(k)) % len(SEEDS)]), [[1, i % NALIGN, 0xFF], [0, (i * 7) % NALIGN, 0x00], [2, 0, 0xFF], [3, 0, 0xFF]]]
+                         for i, k in enumerate(st)], per=32)
+    # (i) round 3: lengths up to 4 KiB beyond the grid: every length 81..129 and lengths around 256/512/1024 (thorough: every
+    #     length to 520, then a stride of 61 - every residue mod 8 and mod 16 - to 4 KiB and the lengths around 4096)
+    if q:
+        lens = list(range(81, 130)) + [255, 256, 257, 511, 513, 1023, 1025]
+    else:
+        lens = list(range(81, 521)) + list(range(521, 4100, 61)) + [4093, 4094, 4095, 4096, 4097, 4098, 4099]
+    out["lengths"] = pack([[content(rnd, n, 3 if n % 3 else 0), slimbs(SEEDS[n % len(SEEDS)]), [[1, n % NALIGN, 0xFF], [2, 0, 0x00]]] for n in lens], per=4)
     return out
 
 
@@ -146,15 +183,62 @@ def has_generic(ctx):
 
 def build(ctx, flavour="asan"):
     """-> path of the driver built in that flavour, or None after a VIOLATION (the property's functions cannot be called)"""
+    if flavour == "ilp32":
+        d = build32(ctx)
+        if d is None:
+            raise MachineryError("the ILP32 driver cannot be built / run here: %s" % ctx.notes.get("ilp32"))
+        return d
     fl = FLAVOURS[flavour or "asan"]
     return tables.build_driver(ctx, "C14", os.path.join(core.HARNESS, "hash", "driver.cpp"), os.path.join(ctx.work, "hash_driver_" + fl.name),
                                os.path.join(core.HARNESS, "hash", "api_probe.cpp"),
                                flags=["-DHAVE_GENERIC_FALLBACK"] if has_generic(ctx) else [], flavour=fl)
 
 
+M32_FLAGS = ["-std=c++14", "-m32", "-O1", "-g", "-ffreestanding", "-nostdinc++", "-fno-stack-protector", "-fno-pie", "-no-pie",
+             "-fno-exceptions", "-fno-rtti", "-nostdlib", "-static"]
+_ilp32 = {}
+
+
+def build32(ctx):
+    """The ILP32 build of the driver (harness/hash/driver32.cpp: freestanding, -m32, raw system calls) - the only way to
+    compile AND run the header's branch for 32-bit platforms on this machine.  -> path, or None when this machine cannot
+    build or start such a program (recorded in the evidence; nothing of the property's LP64 claim depends on it)."""
+    if "v" in _ilp32:
+        return _ilp32["v"]
+    out = os.path.join(ctx.work, "hash_driver_ilp32")
+    cmd = [core.CXX] + M32_FLAGS + ["-isystem", os.path.join(core.HARNESS, "hash", "stubs32"), "-I", core.INCLUDE,
+                                   os.path.join(core.HARNESS, "hash", "driver32.cpp"), "-o", out]
+    rc, o = core.sh(cmd, timeout=600)
+    _ilp32["v"] = None
+    if rc != 0:
+        # does the 64-bit interface probe build?  then the tree is fine for LP64 and only the 32-bit configuration is broken
+        errs = " | ".join([l.strip() for l in o.splitlines() if "error" in l][:3])[:600]
+        if "xhash.hpp" in o:
+            ctx.drift.append("ADVISORY ILP32: xhash.hpp does not compile for a 32-bit target (g++ -m32, freestanding): " + errs)
+        ctx.notes["ilp32"] = "driver32.cpp does not build with -m32 here: " + errs
+        return None
+    rc, o = _run_empty(out)
+    if rc != 0:
+        ctx.notes["ilp32"] = "the -m32 driver builds but this kernel does not run it (status %s): %s" % (rc, o[:200])
+        return None
+    ctx.notes["ilp32"] = "built and run: " + " ".join(cmd[:1] + M32_FLAGS)
+    _ilp32["v"] = out
+    return out
+
+
+def _run_empty(exe):
+    import subprocess
+    try:
+        p = subprocess.run([exe], stdin=subprocess.DEVNULL, stdout=subprocess.PIPE, stderr=subprocess.STDOUT, timeout=60)
+        return p.returncode, p.stdout.decode(errors="replace")
+    except (OSError, subprocess.TimeoutExpired) as e:
+        return 126, str(e)
+
+
 def describe(l):
     c = l["c"][0]
-    return "hash of %d-byte key %s%s seed limbs %s" % (len(c[0]), c[0][:24], "..." if len(c[0]) > 24 else "", c[1]) if l["op"] == "H" else l["op"]
+    return "hash of %d-byte key %s%s seed limbs %s%s" % (len(c[0]), c[0][:24], "..." if len(c[0]) > 24 else "", c[1],
+                                                          " [ILP32 build, -m32]" if l.get("bld") == "ilp32" else "") if l["op"] == "H" else l["op"]
 
 
 def replay(ctx, path):
@@ -182,9 +266,19 @@ def run(ctx):
         f2 = ex.submit(core.tlc_model_check, ctx, "MurmurImpl", "MurmurImpl_mc.cfg" if q else "MurmurImpl_mc_thorough.cfg",
                        "L2 hash loops / tail switch / load_bytes return the L1 value and read exactly the key's bytes; terminate",
                        coverage=not q, workers=tables.tlc_workers())
+        f3 = ex.submit(core.tlc_model_check, ctx, "MurmurImpl32", "MurmurImpl32_mc.cfg" if q else "MurmurImpl32_mc_thorough.cfg",
+                       "L2 of the 32-bit-platform branch of murmur_hash<8> returns MurmurHash2A(low seed half) zero-extended and reads exactly the key's bytes; terminates",
+                       coverage=not q, workers=tables.tlc_workers())
         drvs = {f: d for f, d in zip(flavours, ex.map(lambda f: build(ctx, f), flavours))}
+        d32 = build32(ctx)
         sc = scripts(ctx)
-        r, r2 = f1.result(), f2.result()
+        r, r2, r3 = f1.result(), f2.result(), f3.result()
+    if r3["violated"] or "No error has been found" not in r3["out"]:
+        ctx.drift.append("MurmurImpl32.tla (the transcribed 32-bit-platform branch) does not compute Murmur!X64OnILP32 (%s); see %s" % (r3["violated"], r3["outfile"]))
+    # expected counterexample: that branch is not MurmurHash64A (what the statement asks of murmur2_x64); proposed fix C14-01
+    r4 = core.tlc(ctx, "MurmurImpl32", "MurmurImpl32_vs64A.cfg", name="l2-ilp32-vs-murmur64a", workers=tables.tlc_workers())
+    ctx.notes["l2_ilp32_branch_vs_MurmurHash64A"] = ("IsMurmur64A violated (as on the unchanged tree): on a 32-bit platform murmur2_x64 is MurmurHash2A of the "
+                                                     "low seed half, a 32-bit value" if r4["violated"] else "IsMurmur64A holds: the 32-bit-platform branch computes MurmurHash64A")
     if r["violated"]:
         raise MachineryError("Words.tla/Murmur.tla violate their own laws or the published vectors (%s): oracle bug, see %s" % (
             r["violated"], r["outfile"]))
@@ -193,12 +287,15 @@ def run(ctx):
     if not q:
         ctx.notes["l2_action_coverage"] = r2.get("coverage", {})
         ctx.notes["vacuous_actions"] = sorted(k for k, v in r2.get("coverage", {}).items() if v[1] == 0 and k[0] == "X")
+        ctx.notes["l2_ilp32_action_coverage"] = {k: v for k, v in r3.get("coverage", {}).items() if k[0].isupper()}
+        ctx.notes["vacuous_actions"] += sorted(k for k, v in r3.get("coverage", {}).items()
+                                               if v[1] == 0 and k in ("PBlock", "Switch", "Case3", "Case2", "Case1", "MixT", "MixL", "PFinal"))
     if any(d is None for d in drvs.values()):      # the functions cannot be called as the property states: reported by build()
         return core.finish(ctx, "exploration", rule="the conformance driver does not build against this tree; no key was hashed",
                            assumptions=[], exhaustive=False)
     jobs = []
     for name, lines in sc.items():
-        n = {"grid": 6, "random": 4, "smhasher-keys": 2, "long": 1, "huge": 1, "reused": 1}[name] if q else {"grid": 8, "random": 24, "smhasher-keys": 2, "long": 4, "huge": 1, "reused": 2}[name]
+        n = {"grid": 6, "random": 4, "smhasher-keys": 2, "long": 1, "huge": 1, "reused": 1, "exh2": 4, "strat": 1, "lengths": 1}[name] if q else {"grid": 8, "random": 24, "smhasher-keys": 2, "long": 4, "huge": 1, "reused": 2, "exh2": 24, "strat": 6, "lengths": 4}[name]
         k = max(1, (len(lines) + n - 1) // n)
         k += (-k) % (WINDOW + 1)              # cut at Reset lines
         for i in range(0, len(lines), k):
@@ -213,6 +310,24 @@ def run(ctx):
             off = (flavours.index(f) * k) % max(1, len(lines) - k + 1)
             off -= off % (WINDOW + 1)
             jobs.append(tables.Job("%s-%s-0" % (name, f), drvs[f], lines[off:off + k], bld=f))
+    # the ILP32 build (round 3): murmur2_x86 and hash_bytes are checked like everywhere else, murmur2_x64 as described in
+    # MurmurCheck.tla; a slice of every family (all short and stratified keys in the thorough tier)
+    if d32:
+        for name, frac in (("grid", 3), ("random", 4 if q else 12), ("smhasher-keys", 1), ("long", 1), ("reused", 1), ("strat", 1),
+                           ("lengths", 1), ("exh2", 4 if q else 3)):
+            if q and name == "lengths":
+                continue
+            lines = sc[name]
+            k = max(WINDOW + 1, len(lines) // frac)
+            k += (-k) % (WINDOW + 1)
+            off = ((ctx.seed % frac) * k) % max(1, len(lines) - k + 1) if name == "exh2" and q else 0
+            off -= off % (WINDOW + 1)
+            part = lines[off:off + k]
+            nt = 1 if len(part) < 400 else (2 if q else 6)
+            kk = max(WINDOW + 1, (len(part) + nt - 1) // nt)
+            kk += (-kk) % (WINDOW + 1)
+            for i in range(0, len(part), kk):
+                jobs.append(tables.Job("%s-ilp32-%d" % (name, i // kk), d32, part[i:i + kk], bld="ilp32"))
     ctx.notes["build_flavours"] = {f: " ".join([FLAVOURS[f].cxx or core.CXX] + FLAVOURS[f].flags + ([] if not FLAVOURS[f].asan else ["-fsanitize=address"])) for f in flavours}
     keys = sum(len(l["c"]) for j in jobs for l in j.lines if l["op"] == "H")
     calls = sum(len(c[2]) for j in jobs for l in j.lines if l["op"] == "H" for c in l["c"])
@@ -227,20 +342,29 @@ def run(ctx):
     ctx.log("TLC accepted %d table cases (keys + resets) covering %d keys" % (ok, keys))
     return core.finish(
         ctx, "exploration",
-        rule="murmur2_x86, murmur2_x64, hash_bytes: every key length 0..%d x 8 seeds (0, 1, 0xc70f6907, 2^32-1, 2^32, 2^63, 2^64-1, random) x %d "
-             "byte contents, each at alignments 0..7 x {inside a pre-filled frame, exact-size heap block} x 2 fill bytes and flush against "
-             "a PROT_NONE page behind (2 fills) and before the key; repeats of earlier keys at other placements; %d seeded random keys up "
-             "to 300 bytes at 4 placements; the SMHasher key family; %d long keys (to 20 000 bytes, lengths around the page size) and one of more than 65 536 bytes; %d runs of 4 keys of equal length and seed hashed one after the other in one reused buffer; "
-             "slices of all families repeated in the builds %s; one case = one key with all its placements, compared by TLC with the "
-             "Murmur.tla reference and with each other"
-             % (40 if q else 80, 2 if q else 5, 600 if q else 40000, 10 if q else 65, 40 if q else 600, ", ".join(flavours[1:])),
-        assumptions=["little-endian host with sizeof(std::size_t) = 8: the 32-bit-platform branch of murmur_hash<8> (INTPTR_MAX == INT32_MAX) "
-                     "and big-endian loads are not compiled here: -m32 does not even compile on this machine (no 32-bit libstdc++ headers: "
-                     "bits/c++config.h is missing), let alone link or run",
+        rule="murmur2_x86, murmur2_x64, hash_bytes: every key length 0..%d x 11 seeds (0, 1, 0xc70f6907, 2^32-1, 2^32, 2^63, 2^64-1, 2^31, 2^63+2^31, "
+             "2^63-1 with bit 31 clear, random) x %d byte contents, each at alignments 0..15 x {inside a pre-filled frame, exact-size heap block} x 2 fill "
+             "bytes and flush against a PROT_NONE page behind (2 fills) and before the key; repeats of earlier keys at other placements; EVERY key of "
+             "length <= 2 over all 256 byte values (65 793 keys) x %d seed(s) with the high bit of both halves set; every key over {00,01,7F,80,FF} to "
+             "length %d and single-position substitutions of these bytes to length 9; %d seeded random keys up to 300 bytes at 4 placements; the "
+             "SMHasher key family; lengths %s; %d long keys (to 20 000 bytes, lengths around the page size) and one of more than 65 536 bytes; %d runs "
+             "of 4 keys of equal length and seed hashed one after the other in one reused buffer; slices of all families repeated in the builds %s%s; "
+             "one case = one key with all its placements, compared by TLC with the Murmur.tla reference and with each other"
+             % (40 if q else 80, 2 if q else 5, 1 if q else 3, 4 if q else 6, 600 if q else 40000,
+                "81..129 and around 256/512/1024" if q else "81..520, then every 61st to 4 KiB, 4093..4099", 10 if q else 65, 40 if q else 600,
+                ", ".join(flavours[1:]), " and in the ILP32 build (g++ -m32, freestanding: sizeof(std::size_t) = 4, the header's 32-bit-platform branch)" if d32 else ""),
+        assumptions=["little-endian hosts only (big-endian loads are not compiled). LP64 builds: verdicts for all three functions. ILP32 build "
+                     "(harness/hash/driver32.cpp, compiled with -m32 -ffreestanding -nostdlib against stub standard headers and started by the "
+                     "kernel's 32-bit support; %s): murmur2_x86 and hash_bytes (= MurmurHash2 there) are verdicts, placement/history independence of "
+                     "all three is a verdict, the VALUE of murmur2_x64 is advisory until proposed fix C14-01 is committed (the unchanged branch returns "
+                     "32-bit MurmurHash2A of the low seed half, which MurmurImpl32.tla transcribes and TLC proves; ILP32_X64=verdict in the environment "
+                     "makes it a verdict)" % ctx.notes.get("ilp32", "not available"),
                      "a read behind the key faults in every build (PROT_NONE page) and is an ASan report in the sanitizer builds; a read "
                      "before a key at an address that is not 8-aligned is detected only through the two fill patterns (neither a guard page "
                      "nor AddressSanitizer can forbid part of a granule on the left)",
-                     "xhash.hpp has exactly three public entry points (hash_bytes, murmur2_x86, murmur2_x64); all are driven. The "
-                     "detail:: fallback template is compared with its description as an advisory only, when it exists",
-                     "std::hash<xbasic_fixed_string> (last clause of the property) is checked by the C01 trace spec"],
+                     "xhash.hpp has exactly three public entry points (hash_bytes, murmur2_x86, murmur2_x64; grep over include/xtl: the only other "
+                     "caller is std::hash<xbasic_fixed_string>); all are driven. The detail:: fallback template is compared with its description as an "
+                     "advisory only, when it exists",
+                     "std::hash<xbasic_fixed_string> (last clause of the property) is checked by the C01 trace spec",
+                     "avalanche / distribution quality is not part of the statement and is not examined"],
         exhaustive=False)
